@@ -9,10 +9,14 @@ def run(ck):
     # (B) TLC behaviours replayed through the gates inside Transition: same schedule, same outcome
     sim = ck.tlc("MC_NodeState", "MC_NodeState_sim.cfg", simulate={"num": 1500 if ck.thorough else 300}, depth=80, workers=1)
     beh = sim.printed
+    # second family: a state left and entered again between the load and the swap of other transitions out of it
+    ck.tlc("MC_NodeState", "MC_NodeState_aba.cfg", workers=4)
+    sim2 = ck.tlc("MC_NodeState", "MC_NodeState_aba_sim.cfg", simulate={"num": 1500 if ck.thorough else 300}, depth=80, workers=1)
+    beh = beh + sim2.printed
     if ck.replay is not None and "sched" in ck.replay:
         beh = [ck.replay]
     if ck.replay is None or "sched" in ck.replay:
-        outs = ck.drive(b, ["replay"], input_lines=[{"script": x["script"], "sched": x["sched"]} for x in beh])
+        outs = ck.drive(b, ["replay"], input_lines=[{"script": x["script"], "sched": x["sched"], "first": x.get("first", "Inactive")} for x in beh])
         byi = {o["i"]: o["o"] for o in outs}
         stuck = []
         for i, x in enumerate(beh):
